@@ -299,6 +299,8 @@ pub enum TraceOp {
     FreePart { idx: u16, down: u8, part: u16, core: u8 },
     /// free something the trace never allocated
     FreeUnknown { order: u8, pos: u16, core: u8 },
+    /// free something the trace does not hold, directly before/after a held allocation
+    FreeNear { idx: u16, after: bool, order: u8, core: u8 },
 }
 
 #[derive(Serialize, Deserialize, Clone, Debug, Hash, PartialEq, Eq)]
@@ -331,6 +333,7 @@ fn resolve(c: &TraceCase) -> (Vec<Event>, usize, bool, usize) {
     let mut held_frames = 0usize;
     let mut events = Vec::new();
     let mut nontrivial = false;
+    let mut near_unknown = false;
     let mut excluded = 0usize;
     for op in &c.ops {
         match *op {
@@ -392,17 +395,34 @@ fn resolve(c: &TraceCase) -> (Vec<Event>, usize, bool, usize) {
                 let len = 1usize << order;
                 let n = MAX_PFN / len;
                 let p = (((pos as usize) * n) >> 16) * len;
-                // must not touch anything the trace holds, at any covering order (the replayer looks up to TREE_ORDER)
-                let cover = p / llfree::TREE_FRAMES * llfree::TREE_FRAMES;
-                if p == 0 || occupied[cover..cover + llfree::TREE_FRAMES].iter().any(|o| *o) {
+                // an unknown free must not overlap anything the trace holds (that would be a free
+                // spanning held parts, which the property does not cover); being NEXT to a held
+                // allocation is fine: no allocation covers it, so nothing may be freed
+                if p == 0 || occupied[p..p + len].iter().any(|o| *o) {
                     excluded += 1;
                     continue;
                 }
                 events.push(Event { alloc: false, pfn: p, order, core: core as usize % cores, flags: 0 });
             }
+            TraceOp::FreeNear { idx, after, order, core } => {
+                // free of a never-allocated (or already freed) block right before/after a held one
+                if held.is_empty() {
+                    continue;
+                }
+                let (hp, ho, _) = held[((idx as usize) * held.len()) >> 16];
+                let order = (order as usize % 11).min(ho);
+                let len = 1usize << order;
+                let p = if after { hp + (1 << ho) } else { hp.wrapping_sub(len) };
+                if p == 0 || p >= MAX_PFN || p % len != 0 || p + len > MAX_PFN || occupied[p..p + len].iter().any(|o| *o) {
+                    excluded += 1;
+                    continue;
+                }
+                near_unknown = true;
+                events.push(Event { alloc: false, pfn: p, order, core: core as usize % cores, flags: 0 });
+            }
         }
     }
-    (events, held_frames, nontrivial, excluded)
+    (events, held_frames, nontrivial || near_unknown, excluded)
 }
 
 fn write_trace(path: &std::path::Path, events: &[Event], cores: usize) -> std::io::Result<()> {
@@ -590,6 +610,7 @@ fn trace_strategy() -> BoxedStrategy<TraceCase> {
         6 => (any::<u16>(), 1u8..4, any::<u16>(), any::<u8>())
             .prop_map(|(idx, down, part, core)| TraceOp::FreePart { idx, down, part, core }),
         1 => (order(), any::<u16>(), any::<u8>()).prop_map(|(order, pos, core)| TraceOp::FreeUnknown { order, pos, core }),
+        2 => (any::<u16>(), any::<bool>(), 0u8..4, any::<u8>()).prop_map(|(idx, after, order, core)| TraceOp::FreeNear { idx, after, order, core }),
     ];
     (1u8..=4, prop::collection::vec(op, 1..60))
         .prop_map(|(cores, ops)| TraceCase { cores, ops })
